@@ -6,13 +6,13 @@ toolchain go1.23.5
 
 require (
 	github.com/enfein/mieru/v3 v3.0.0
+	golang.org/x/crypto v0.33.0
 	google.golang.org/protobuf v1.34.2
 	pgregory.net/rapid v1.3.0
 )
 
 require (
 	github.com/google/btree v1.1.3 // indirect
-	golang.org/x/crypto v0.33.0 // indirect
 	golang.org/x/sys v0.30.0 // indirect
 )
 
